@@ -295,6 +295,12 @@ func (s *Server) serveOne(ctx context.Context, r io.Reader, w io.Writer, shmConn
 			}
 			s.logIPCWriteErr("error-response", req.Method,
 				writeErrorResponse(w, errSchema, pverr, s.serverID, req.RequestID, s.debugErrors))
+			// The client of a stream method has already written its input
+			// stream (ticks / exchange batches); drain it so the next
+			// ReadRequest starts at a request boundary.
+			if methodTypeString(info.Type) == DispatchMethodStream {
+				drainInputStream(r)
+			}
 			return nil
 		}
 	}
